@@ -26,6 +26,7 @@ type harness struct {
 	nrun  int
 	nviol int
 	ndis  int
+	end   time.Time // no new work is started after this
 }
 
 func corpusDir() string {
@@ -288,6 +289,10 @@ func (h *harness) report(sc *Script, o *Outcome) {
 func (h *harness) process(scripts []*Script) {
 	const batch = 160
 	for len(scripts) > 0 {
+		if time.Now().After(h.end) {
+			h.ctx.Note(fmt.Sprintf("time budget used up; %d conversations not run", len(scripts)))
+			return
+		}
 		if h.nviol+h.ndis >= 6 {
 			h.ctx.Note(fmt.Sprintf("stopped early after %d confirmed violations and %d persistent disagreements; %d conversations not run", h.nviol, h.ndis, len(scripts)))
 			return
@@ -309,7 +314,7 @@ func (h *harness) process(scripts []*Script) {
 			}
 			var requeue []*Script
 			for k, i := range cr.inflight {
-				if k >= 8 || h.nviol >= 6 { // enough suspects tried; the others go back into the queue below
+				if k >= 8 || h.nviol >= 6 || time.Now().After(h.end) { // enough suspects tried; the others go back into the queue below
 					delete(suspects, i)
 					continue
 				}
@@ -486,7 +491,7 @@ func (h *harness) confirm(sc *Script, first *Outcome) *Outcome {
 
 // bisectLeak finds the conversations after which goroutines or descriptors stay behind.
 func (h *harness) bisectLeak(scripts []*Script) {
-	if len(scripts) == 0 || h.nviol >= 6 {
+	if len(scripts) == 0 || h.nviol >= 6 || time.Now().After(h.end) {
 		return
 	}
 	if len(scripts) > 8 {
@@ -551,7 +556,7 @@ func Run(ctx *corr.Ctx) {
 		dir, _ = os.MkdirTemp("", "hclient")
 		defer os.RemoveAll(dir)
 	}
-	h := &harness{ctx: ctx, exe: exe, dir: dir, par: 24}
+	h := &harness{ctx: ctx, exe: exe, dir: dir, par: 24, end: time.Now().Add(time.Duration(ctx.N(300, 2400)) * time.Second)}
 
 	if ctx.Replay != nil {
 		var sc Script
@@ -574,28 +579,31 @@ func Run(ctx *corr.Ctx) {
 	rt := 400
 	g := &gen{rng: rand.New(rand.NewPCG(ctx.Rng.Uint64(), 12)), rt: rt}
 	scripts = append(scripts, sweep(g)...)
-	nGram := ctx.N(1500, 30000)
-	nWild := ctx.N(700, 15000)
+	nGram := ctx.N(1500, 20000)
+	nWild := ctx.N(700, 10000)
 	for i := range nGram {
 		scripts = append(scripts, g.script(i, false))
 	}
 	for i := range nWild {
 		scripts = append(scripts, g.script(i, true))
 	}
-	for i := range ctx.N(120, 3000) {
+	for i := range ctx.N(120, 1500) {
 		scripts = append(scripts, g.lingering(i))
 	}
-	for i := range ctx.N(150, 3000) {
+	for i := range ctx.N(150, 2000) {
 		scripts = append(scripts, g.concurrent(i))
 	}
-	for i := range ctx.N(250, 6000) {
+	for i := range ctx.N(250, 4000) {
 		scripts = append(scripts, g.secure(i))
 	}
-	for i := range ctx.N(150, 4000) {
+	for i := range ctx.N(150, 2500) {
 		scripts = append(scripts, g.udpSwitch(i))
 	}
-	for i := range ctx.N(120, 3000) {
+	for i := range ctx.N(120, 2000) {
 		scripts = append(scripts, g.tunnelled(i))
+	}
+	for i := range ctx.N(80, 1500) {
+		scripts = append(scripts, g.multicast(i))
 	}
 	h.process(scripts)
 }
